@@ -12,9 +12,13 @@ for d in sorted(glob.glob(os.path.join(V, "seeded", "*"))):
     if os.path.exists(rp):
         r = json.load(open(rp)); res = r["latest"]["results"]; hist = r.get("history", [])
     first = {}
+    merged = {}
     for h in hist:
         for c, v in h["results"].items():
             first.setdefault(c, v["caught"])
+            merged[c] = v  # the last result per check, whichever invocation produced it
+    merged.update(res)
+    res = merged
     notes = ""
     np_ = os.path.join(d, "notes.md")
     if os.path.exists(np_):
@@ -27,6 +31,8 @@ for d in sorted(glob.glob(os.path.join(V, "seeded", "*"))):
             m = re.search(r"class=(\S+)", l)
             if m: cls = m.group(1); break
         status = "caught" if v["caught"] else ("MISSED" if v["exit"] == 0 else "error")
+        if not v["caught"] and meta.get("neutralised") and c == meta["property"]:
+            status = "not caught - " + meta["neutralised"]
         if v["caught"] and first.get(c) is False:
             status = "caught after strengthening (first run missed)"
         rows.append(f"| {os.path.basename(d)} | {meta['property']} | {notes[:110]} | {c}: {status} | {cls} |")
